@@ -417,6 +417,9 @@ Definition release_stream (c : sconn) (s : stream) : sconn :=
 Definition close_stream (c : sconn) (s : stream) : sconn :=
   let c1 := mark_closed c (st_id s) (st_weReset s) in
   let c2 := upd_strms c1 (strms_del (sc_strms c1) (st_id s)) in
+  (* reset while its header block is still arriving: the rest of the block is decoded and discarded *)
+  let c2 := if st_weReset s && negb (st_headersFinished s) && negb (sc_discardID c2 =? st_id s)
+            then upd_discard c2 (st_id s) (st_prev s) (st_blockFields s) else c2 in
   (* closeBodyStream *)
   let s1 := set_snd s (mkSnd (st_window s) (st_pending s) (st_pendingEnd s) None (st_bodySize s) (st_bodyRead s)) in
   if st_handlerRunning s1 then
@@ -521,6 +524,7 @@ Definition header_field (cfg : config) (h : hdr) (k v : bytes) : h2err + hdr :=
           match parse_uint v with
           | Some n =>
             if ((0 <? cf_maxBody cfg) && (cf_maxBody cfg <? n))%Z then inl (EReset c_EnhanceYourCalm)
+            else if hd_hasCL h1 && negb (n =? hd_contentLength h1)%Z then inl (EReset c_ProtocolError)
             else inr (n, true)
           | None => inl (EReset c_ProtocolError)
           end
@@ -614,7 +618,8 @@ Definition handle_header_frame (cfg : config) (c : sconn) (s : stream) (fr : sfr
   else
     let h0 := get_hdr s in
     let h1 := mkHdr false [] (hd_pMethod h0) (hd_pScheme h0) (hd_pPath h0) (hd_pAuth h0)
-                    (hd_regularSeen h0) (hd_contentLength h0) (hd_hasCL h0) (hd_headerListSize h0)
+                    (hd_regularSeen h0 || hd_headersFinished h0) (* no pseudo-headers in trailers *)
+                    (hd_contentLength h0) (hd_hasCL h0) (hd_headerListSize h0)
                     (if fkind_eqb (sf_kind fr) KCont then hd_blockFields h0 else 0) (hd_path h0) (hd_req h0) in
     let b := hd_prev h0 ++ sf_payload fr in
     let eh := flag_has (sf_flags fr) FL_EH in
@@ -949,7 +954,8 @@ Definition sl_frame (cfg : config) (c : sconn) (fr : sframe) : sconn * bool :=
       | Some s => inr (c, s)
       | None =>
         if fkind_eqb (sf_kind fr) KRst then
-          if sc_lastID c <? sf_sid fr then inl (cont (write_goaway c (sf_sid fr) c_ProtocolError)) else inl (cont c)
+          if (sc_lastID c <? sf_sid fr) && (sc_highestID c <? sf_sid fr)
+          then inl (cont (write_goaway c (sf_sid fr) c_ProtocolError)) else inl (cont c)
         else if in_ring c (sf_sid fr) then
           let weReset := match ring_find c (sf_sid fr) with Some b => b | None => false end in
           match sf_kind fr with
